@@ -10,6 +10,9 @@ Line protocol for the blueprint model.
   consistent NB NH NX NM                 -> T | F
   blocks [names] [heights] [xs] [mesh]   -> reject | [name|h|xs|mesh,..]      (blanks in names written as ~)
   pinduct [name:D:C:W:op:ip:od:mult,..]   -> skipped|nogap|accept|refuse duct=NAME|none rings=N|-   (HexBlock.verifyBlockDims, blueprint order)
+  customdensity T|F CUSTOM DLL             -> hot density of a library solid with a custom-isotopics density
+  thirdload [i:j:spec,..]                  -> reject | [i:j:spec,..]   third-core hex: Core.add with symmetryOverlap, then removeEdgeAssemblies
+  firstthird I J                           -> TT|TF|FT|FF   (isInFirstThird, on the 120-degree overlap line)
   numrings N                               -> hexagon.numRingsToHoldNumCells
   mult [i:j:id,..] [ids] DECL|_          -> reject | unset | VALUE            multiplicity learned from a pin lattice
   flags [KNOWN,..] name~with~tildes      -> [FLAG,..]                         Flags.fromStringIgnoreErrors as a list
@@ -105,6 +108,17 @@ def answer : List String → String
         let r := match getOne (·.clad) cs with | some (some c) => toString (numRings c.mult) | _ => "-"
         v ++ " duct=" ++ d ++ " rings=" ++ r
       | none => "bad-op"
+  | ["customdensity", hot, custom, dll] => match parseBool? hot, parseRat? custom, parseRat? dll with
+      | some hot, some c, some d => showRat (customDensityHot hot c d)
+      | _, _, _ => "bad-op"
+  | ["thirdload", cont] => match parseList? parseContent? cont with
+      | some cont => (match loadThird cont with
+        | none => "reject"
+        | some kept => showList (fun p => toString p.1.1 ++ ":" ++ toString p.1.2 ++ ":" ++ p.2) kept)
+      | none => "bad-op"
+  | ["firstthird", i, j] => match i.toInt?, j.toInt? with
+      | some i, some j => showBool (inFirstThird (i, j)) ++ showBool (onOverlapLine (i, j))
+      | _, _ => "bad-op"
   | ["numrings", n] => match n.toNat? with | some n => toString (numRings n) | none => "bad-op"
   | _ => "bad-op"
 
